@@ -15,7 +15,7 @@ for d in "${dirs[@]}"; do
   if ! git -C /repo apply --check "$(readlink -f "$patch")" 2>/dev/null; then echo "$(basename $d) $id: patch does not apply to the current /repo HEAD" | tee -a seeded/INPLACE_RESULTS.txt; continue; fi
   git -C /repo apply "$(readlink -f "$patch")"
   cmd=$(python3 -c "import json;print([c['quick_cmd'] for c in json.load(open('MANIFEST.json'))['checks'] if c['property_id']=='$id'][0])")
-  out=$(VERIF_ROOT=$(mktemp -d) bash -c "mkdir -p \$VERIF_ROOT/evidence \$VERIF_ROOT/replays; cp known_findings.json c03_known_cases.json \$VERIF_ROOT/; $cmd" 2>&1); rc=$?
+  out=$(VERIF_ROOT=$(mktemp -d) bash -c "mkdir -p \$VERIF_ROOT/evidence \$VERIF_ROOT/replays; cp -r known_findings.json c03_known_cases.json known_cases \$VERIF_ROOT/; $cmd" 2>&1); rc=$?
   git -C /repo checkout -- .
   v=$(echo "$out" | grep -m1 -A1 '^VIOLATION' | tail -1 | cut -c1-160)
   echo "$(basename $d) $id: exit=$rc $([ $rc = 1 ] && echo CAUGHT || echo NOT-CAUGHT) $v" | tee -a seeded/INPLACE_RESULTS.txt
